@@ -76,6 +76,12 @@ def _run_scenario(idx: int) -> Tuple[int, List[Dict[str, Any]], Optional[str], f
         return idx, [], "CheckerError: " + str(e), time.time() - t, {}
     except instrument_error() as e:
         return idx, [], "CheckerError: " + str(e), time.time() - t, {}
+    except SystemExit as e:
+        # the code under contract asked the interpreter to exit (sys.exit / argparse error at import or call time): nothing is
+        # known about the scenario's obligations -- undecided, and the concrete runs (CLI smoke / sweeps) say what a user sees
+        ob = Ob(f"{sc.ident}:RUN", sc.func, "RUN", "the contract scenario runs to completion on this tree", UNDECIDED, list(sc.props),
+                "pyvc", time.time() - t, "", f"scenario aborted: the code under contract raised SystemExit({e.code!r})")
+        return idx, [ob.to_json()], None, time.time() - t, {}
     except Exception as e:
         # the code under contract no longer fits the scenario (changed signature, unsupported construct, ...):
         # the scenario's obligations are UNDECIDED, never silently passed and never a violation by themselves
